@@ -85,7 +85,7 @@ func sanitize(s string) string {
 	}, s)
 }
 
-func isUser(pkg string) bool { return pkg == "." || strings.HasPrefix(pkg, "gvp") }
+func isUser(pkg string) bool { return pkg == "." || strings.HasPrefix(pkg, "gv") }
 
 func runJob(j job, scratch string) (res result) {
 	t0 := time.Now()
